@@ -36,3 +36,15 @@ Theorem C06_store_n_primes_spec : forall maxV n start blocks v0,
   end.
 Proof. exact store_n_primes_spec. Qed.
 Print Assumptions C06_store_n_primes_spec.
+
+(** the same with the blocks cut (by any block layout) from what the model kernel delivers (Properties_C04):
+    no hypothesis about the iterator or the sieve is left, only [largest_prime_hyp] *)
+From PS Require Import Model.CrossOff Proofs.IteratorCor Proofs.KernelInstP.
+Theorem C06_store_primes_model_kernel : forall l1 maxKB cut maxV start stop v0,
+  16 <= maxKB -> maxKB <= 8192 -> cut_spec cut ->
+  largest_prime_hyp -> start <= MAX64 -> stop <= MAX64 ->
+  store_primes maxV start stop (cut (sieve_model l1 maxKB start MAX64)) v0 =
+    if (start <=? stop) && (start <=? MAXPRIME64) && (maxV <? stop) then SThrow v0
+    else SOk (v0 ++ primes_between start stop).
+Proof. exact store_primes_model. Qed.
+Print Assumptions C06_store_primes_model_kernel.
